@@ -110,16 +110,19 @@ theorem readUvarint_uvarint (n : Nat) (rest : Bytes) (hn : n < two64) :
     readUvarint (uvarint n ++ rest) = .ok (n, rest) :=
   readUvarintAux_uvarint 10 n true rest (by simpa [two64] using hn) (by decide)
 
-theorem asInt_small (n : Nat) (h : n < two63) : asInt n = Int.ofNat n := by
+theorem asInt_small (n : Nat) (h : n < two63) : asInt n = (n : Int) := by
   unfold asInt
   have : n % two64 = n := Nat.mod_eq_of_lt (by unfold two63 two64 at *; omega)
   simp [this, h]
 
 theorem readUvarintAsInt_uvarint (n : Nat) (rest : Bytes) (hn : n < two63) :
-    readUvarintAsInt (uvarint n ++ rest) = .ok (Int.ofNat n, rest) := by
+    readUvarintAsInt (uvarint n ++ rest) = .ok ((n : Int), rest) := by
   unfold readUvarintAsInt
   rw [readUvarint_uvarint n rest (by unfold two63 two64 at *; omega)]
   simp only [asInt_small n hn]
+
+theorem uvarint_small (n : Nat) (h : n < 128) : uvarint n = [UInt8.ofNat n] := by
+  rw [uvarint]; simp [h]
 
 theorem uvarint_ne_nil (n : Nat) : uvarint n ≠ [] := by
   rw [uvarint]; split <;> simp
